@@ -45,21 +45,29 @@ type Lemma struct {
 	Line   int
 }
 
+// Macro is a syntactic abbreviation: (name $a $b) body; expanded in specification expressions.
+type Macro struct {
+	Name   string
+	Params []string
+	Body   *core.Sexp
+}
+
 type Spec struct {
 	Contracts map[string]*Contract
 	Order     []string
 	Ghost     []string // SMT-LIB declarations/definitions added to the prelude
 	Lemmas    []*Lemma
 	Axioms    []string // assumed facts (each listed in the evidence)
+	Macros    map[string]*Macro
 	Errors    []string
 }
 
 var clauseKeywords = map[string]bool{"func": true, "requires": true, "ensures": true, "loop": true, "invariant": true,
-	"decreases": true, "lemma": true, "ghost": true, "axiom": true, "inline": true, "assigns": true, "props": true, "trusted": true, "pure": true, "end": true}
+	"decreases": true, "lemma": true, "macro": true, "ghost": true, "axiom": true, "inline": true, "assigns": true, "props": true, "trusted": true, "pure": true, "end": true}
 
 // ParseSpec reads the //@ lines of the guarded contract file.
 func ParseSpec(lines []load.ContractLine) *Spec {
-	sp := &Spec{Contracts: map[string]*Contract{}}
+	sp := &Spec{Contracts: map[string]*Contract{}, Macros: map[string]*Macro{}}
 	// group into clauses: a clause starts at a line whose first word is a keyword and
 	// extends over following lines until the next keyword line.
 	type raw struct {
@@ -203,6 +211,17 @@ func ParseSpec(lines []load.ContractLine) *Spec {
 			} else {
 				curLoop.Decreases = &c
 			}
+		case "macro":
+			xs, err := core.ParseAll(r.rest)
+			if err != nil || len(xs) != 2 || xs[0].IsAtom() || len(xs[0].List) == 0 {
+				sp.Errors = append(sp.Errors, fmt.Sprintf("line %d: macro needs (name $params...) body", r.line))
+				continue
+			}
+			m := &Macro{Name: xs[0].List[0].Atom, Body: xs[1]}
+			for _, a := range xs[0].List[1:] {
+				m.Params = append(m.Params, a.Atom)
+			}
+			sp.Macros[m.Name] = m
 		case "ghost":
 			sp.Ghost = append(sp.Ghost, r.rest)
 			cur, curLoop = cur, curLoop
